@@ -82,6 +82,8 @@ pub struct ShredPayload { pub header: SliceHeader, pub shred_index: ShredIndex }
 impl Shred {
     pub uninterp spec fn spec_payload(&self) -> ShredPayload;
     pub uninterp spec fn spec_slice_root(&self) -> SliceRoot;
+    // the data/coding tag fits the shred's position (the tag is covered neither by the signature nor by the Merkle path)
+    pub uninterp spec fn spec_tag_fits(&self) -> bool;
     #[verifier::external_body]
     pub fn payload(&self) -> (r: &ShredPayload) ensures *r == self.spec_payload() { unimplemented!() }
     #[verifier::external_body]
@@ -161,7 +163,12 @@ impl SharedBlockstore {
     #[verifier::external_body]
     pub fn verif_add_shred_from_repair(&mut self, hash: BlockHash, shred: ValidatedShred) -> (r: Result<Option<BlockInfo>, AddShredError>)
         ensures
-            final(self).stored() == old(self).stored().push((hash, shred.spec_shred())),
+            // (PROVED for BlockData::add_shred in unit blockdata, finding F20: a shred whose tag does not fit its position is
+            // refused as MisplacedShred before anything is stored, any other shred is taken in or refused for another reason)
+            shred.spec_shred().spec_tag_fits() ==> final(self).stored() == old(self).stored().push((hash, shred.spec_shred()))
+                && r != Err::<Option<BlockInfo>, AddShredError>(AddShredError::MisplacedShred),
+            !shred.spec_shred().spec_tag_fits() ==> final(self).stored() == old(self).stored()
+                && r == Err::<Option<BlockInfo>, AddShredError>(AddShredError::MisplacedShred),
             r matches Ok(Some(info)) ==> info.hash == hash && info.parent.0.0 < shred.spec_shred().spec_payload().header.slot.0,
     { unimplemented!() }
 }
@@ -341,6 +348,15 @@ impl Repair {
             // the slice proved to be the last leaf of the block (another signed slice of a Byzantine leader may share the root)
             && self.last_slices@.contains_key(b) && shred.spec_payload().header.is_last == (s == self.last_slices@[b])
             && sig_ok(shred, self.epoch_info.spec_leader_pk(b.0))
+            // ... and is the shred that was asked for also in the one part nothing authenticates (finding F30)
+            && shred.spec_tag_fits()
+    }
+    // good_shred up to the data/coding tag: everything the requester itself can check
+    pub open spec fn checked_shred(&self, q: RepairRequestType, shred: Shred) -> bool {
+        q matches RepairRequestType::Shred(b, s, i) && shred.spec_payload().header.slot == b.0 && shred.spec_payload().header.slice_index == s
+            && shred.spec_payload().shred_index == i && self.slice_roots@.contains_key((b, s)) && shred.spec_slice_root() == self.slice_roots@[(b, s)]
+            && self.last_slices@.contains_key(b) && shred.spec_payload().header.is_last == (s == self.last_slices@[b])
+            && sig_ok(shred, self.epoch_info.spec_leader_pk(b.0))
     }
 }
 
@@ -422,6 +438,11 @@ ensures
         final(self).blockstore.stored() != old(self).blockstore.stored() ==>
             (response matches RepairResponse::Shred(q, shred) && (q matches RepairRequestType::Shred(b, sl, i)
                 && old(self).last_slices@.contains_key(b) && shred.spec_payload().header.is_last == (sl == old(self).last_slices@[b]))),
+        // [C14.re_tagged_answer_leaves_the_request_outstanding] a genuine shred with a flipped data/coding tag passes every check the
+        // requester can make; the blockstore refuses it, and then the request is still waiting for the right answer
+        (old(self).outstanding_requests@.contains_key(spec_req_hash(response.req()))
+            && (response matches RepairResponse::Shred(q, shred) && old(self).checked_shred(q, shred) && !shred.spec_tag_fits()))
+            ==> final(self).outstanding_requests@ == old(self).outstanding_requests@ && final(self).blockstore.stored() == old(self).blockstore.stored(),
         // [C14.correct_shred_is_stored]
         (old(self).outstanding_requests@.contains_key(spec_req_hash(response.req())) && (response matches RepairResponse::Shred(q, shred) && old(self).good_shred(q, shred)))
             ==> final(self).blockstore.stored().len() == old(self).blockstore.stored().len() + 1,
